@@ -116,7 +116,7 @@ def render_patch(sc, code, stmts=False, decl=False, exprmeta=False):
 def choose_code(sc, rng, allow_ref):
     """(minus, plus, statement in the file).  'plain' never mentions a package; 'ref' calls through
     the guarded package (docs/PatchesInDepth.md style) so that the rewrite changes what is used."""
-    plain = ("foo()", "bar()", "foo()")
+    plain = ("foo()", "bar()", "foo()", None)
     if not allow_ref:
         return plain
     guards = [pi for pi in sc["pimps"] if pi["side"] in ("ctx", "minus")]
@@ -139,14 +139,23 @@ def choose_code(sc, rng, allow_ref):
             if not usable(ln):
                 return plain
             fa = ln
-    b = a
+    b, fb = a, fa
     plus = [pi for pi in sc["pimps"] if pi["side"] == "plus"]
     if plus and code_name(plus[0]) is not None and not (plus[0]["form"] != "meta" and code_name(plus[0]) in metas):
-        b = code_name(plus[0])
-    return ("%s.Old()" % a, "%s.New()" % b, "%s.Old()" % fa)
+        b = fb = code_name(plus[0])
+        if plus[0]["form"] == "meta":
+            # a metavariable: in the output it is the name it was bound to by the '-'/context import line of that name
+            gb = [pi for pi in guards if pi["form"] == "meta" and pi["name"] == b]
+            fi = [f for f in sc["fimps"] if gb and f["path"] == gb[0]["path"]]
+            fb = (fi[0]["name"] or BASE[fi[0]["path"]]) if fi else None
+    want = "%s.New" % fb if fb and usable(fb) else None
+    if g["form"] == "meta" and rng.random() < 0.3:
+        # the metavariable that the import line binds occurs in the '+' code only
+        return ("foo()", "%s.New()" % a, "foo()", "%s.New" % fa)
+    return ("%s.Old()" % a, "%s.New()" % b, "%s.Old()" % fa, want)
 
 
-LAYOUTS = ["group", "singles", "blocks", "commented"]
+LAYOUTS = ["group", "singles", "blocks", "commented", "lead"]
 
 
 def render_file(sc, stmt, rng):
@@ -168,6 +177,16 @@ def render_file(sc, stmt, rng):
                 out += ["\t" + spec(f) for f in part]
                 out.append(")")
                 out.append("")
+        elif layout == "lead":
+            # one block; comment lines lead some of the specs, some are followed by a blank line
+            out.append("import (")
+            for i, f in enumerate(imps):
+                if rng.random() < 0.5:
+                    out.append("\t// lead %d" % i)
+                out.append("\t" + spec(f) + (" // trailing %d" % i if rng.random() < 0.3 else ""))
+                if rng.random() < 0.3 and i + 1 < len(imps):
+                    out.append("")
+            out.append(")")
         else:
             out.append("// imports of the subject")
             out.append("import (")
@@ -208,8 +227,24 @@ def run_cases(ctx, scs, name, allow_ref):
         if decl:
             src += "\nfunc oldDecl() {\n\t%s\n}\n" % code[0]
         cid = "%s-%d" % (name, i)
-        meta.append(dict(id=cid, sc=sc, patch=patch, src=src, code=code))
-        reqs.append(dict(id=cid, op="apply", patch=patch, name="subject.go", src=src))
+        # the parsed patch has a past: it was applied to other files first (the same file importing the guarded
+        # paths under other names / without a name), and the subject is given to it several times
+        before, repeat = [], 0
+        if "fimps" in sc and ctx.rng.random() < 0.4:
+            for flip in ("", "alt"):
+                sc2 = dict(sc, fimps=[dict(f, name=("" if flip == "" else "alt" + BASE[f["path"]])) if any(pi["path"] == f["path"] for pi in sc["pimps"]) else f
+                                      for f in sc["fimps"]])
+                stmt2 = code[2]
+                if stmt2.endswith(".Old()"):
+                    g0 = [pi for pi in sc["pimps"] if pi["side"] in ("ctx", "minus")][0]
+                    f0 = [f for f in sc2["fimps"] if f["path"] == g0["path"]]
+                    if g0["form"] == "meta" and f0:
+                        stmt2 = "%s.Old()" % (f0[0]["name"] or BASE[f0[0]["path"]])
+                before.append(render_file(sc2, stmt2, ctx.rng))
+        if ctx.rng.random() < 0.3:
+            repeat = 12
+        meta.append(dict(id=cid, sc=sc, patch=patch, src=src, code=code, before=before, repeat=repeat))
+        reqs.append(dict(id=cid, op="apply", patch=patch, name="subject.go", src=src, before=before, repeat=repeat))
     inp, outp = ctx.path("imp", name + ".in.ndjson"), ctx.path("imp", name + ".out.ndjson")
     write_ndjson(inp, reqs)
     ctx.run_vh(["api", "-in", inp, "-out", outp], timeout=3000)
@@ -240,10 +275,14 @@ def run_cases(ctx, scs, name, allow_ref):
         # the metavariable-named call is rendered under the file's own name
         changed = any(c.endswith(new_call.split(".")[-1]) for c in o_["calls"]) and not any(c.endswith(new_call.split(".")[-1]) for c in i_["calls"])
         decoy = "decoyname.Old" not in i_["calls"] or "decoyname.Old" in o_["calls"]
-        m["obs"] = dict(inImports=i_["imports"], outImports=o_["imports"], uses=o_["uses"], calls=o_["calls"], changed=changed, decoy_kept=decoy)
+        # the call that the '+' code writes through a package is written under the name that package has in the file
+        plusq = not changed or m["code"][3] is None or m["code"][3] in o_["calls"]
+        m["obs"] = dict(inImports=i_["imports"], outImports=o_["imports"], uses=o_["uses"], calls=o_["calls"], changed=changed, decoy_kept=decoy,
+                        plus_call_expected=m["code"][3])
         lines.append(dict(id=m["id"], pkg=m["sc"]["pkg"], pimps=m["sc"]["pimps"],
                           fimps=[dict(name=x["name"], path=ABS.get(x["path"], x["path"])) for x in i_["imports"]],
                           uses=[u for u in o_["uses"] if u != "decoyname"], changed="1" if changed else "0", decoy="1" if decoy else "0",
+                          plusq="1" if plusq else "0", prior=len(m["before"]), repeat=m["repeat"],
                           out=[dict(name=x["name"], path=ABS.get(x["path"], x["path"])) for x in o_["imports"]],
                           err=(m["err"] or "")[:300]))
     return meta, lines
@@ -263,7 +302,7 @@ def run_pairs(ctx, scs, name):
         p2 = render_patch(sc2, ("baz()", "qux()"))
         src = render_file(sc, code[2], ctx.rng).replace("func keep() {", "func g() {\n\tbaz()\n}\n\nfunc keep() {")
         cid = "%s-%d" % (name, i)
-        meta.append(dict(id=cid, sc=dict(pkg="", pimps=sc["pimps2"], first=sc), patch=p1 + "\n" + p2, src=src, code=("baz()", "qux()", "baz()"), p1=p1))
+        meta.append(dict(id=cid, sc=dict(pkg="", pimps=sc["pimps2"], first=sc), patch=p1 + "\n" + p2, src=src, code=("baz()", "qux()", "baz()", None), p1=p1))
         reqs.append(dict(id=cid + "|first", op="apply", patch=p1, name="subject.go", src=src))
         reqs.append(dict(id=cid + "|both", op="apply", patch=p1 + "\n" + p2, name="subject.go", src=src))
     inp, outp = ctx.path("imp", name + ".in.ndjson"), ctx.path("imp", name + ".out.ndjson")
@@ -319,7 +358,7 @@ def run_pairs(ctx, scs, name):
         m["obs"] = dict(midImports=i_["imports"], outImports=o_["imports"], uses=o_["uses"], calls=o_["calls"], changed=changed)
         lines.append(dict(id=m["id"], pkg="", pimps=m["sc"]["pimps"],
                           fimps=[dict(name=x["name"], path=ABS.get(x["path"], x["path"])) for x in i_["imports"]],
-                          uses=o_["uses"], changed="1" if changed else "0", decoy="1",
+                          uses=o_["uses"], changed="1" if changed else "0", decoy="1", plusq="1", prior=0, repeat=0,
                           out=[dict(name=x["name"], path=ABS.get(x["path"], x["path"])) for x in o_["imports"]],
                           err=(m["err"] or "")[:300]))
     return meta, lines
@@ -368,7 +407,7 @@ def judge(ctx, meta, lines, verdicts, owned, known, kf_key="plus-equals-matched-
             continue
         ctx.violation("%s: %s" % (m["id"], ",".join(bad)),
                       dict(kind="imports", id=m["id"], violated=bad, scenario=m["sc"], patch=m["patch"], src=m["src"],
-                           out=m["out"], err=m["err"], observed=m["obs"], first_patch=m.get("p1")))
+                           out=m["out"], err=m["err"], observed=m["obs"], first_patch=m.get("p1"), before=m.get("before", []), repeat=m.get("repeat", 0)))
     return st
 
 
@@ -376,11 +415,13 @@ def replay(ctx, path, owned, prop):
     from vlib import load_known
     r = json.load(open(path))
     sc = r["scenario"]
-    reqs = [dict(id="replay", op="apply", patch=r["patch"], name="subject.go", src=r["src"])]
+    reqs = [dict(id="replay", op="apply", patch=r["patch"], name="subject.go", src=r["src"], before=r.get("before", []), repeat=r.get("repeat", 0))]
     inp, outp = ctx.path("imp", "replay.in.ndjson"), ctx.path("imp", "replay.out.ndjson")
     write_ndjson(inp, reqs)
     ctx.run_vh(["api", "-in", inp, "-out", outp])
     res = read_ndjson(outp)[0]
+    for b in r.get("before", []):
+        print("applied before (same parsed patch):\n" + b)
     print("patch:\n" + r["patch"] + "\nsource:\n" + r["src"] + "\nresult (err=%r):\n%s" % (res["err"], res["out"]))
     mid = r["src"]
     if r.get("first_patch"):
@@ -401,6 +442,8 @@ def replay(ctx, path, owned, prop):
     line = dict(id="replay", pkg=sc["pkg"], pimps=sc["pimps"], fimps=[dict(name=x["name"], path=ABS.get(x["path"], x["path"])) for x in oi["imports"]],
                 uses=[u for u in oo["uses"] if u != "decoyname"], changed="1" if changed else "0",
                 decoy="1" if ("decoyname.Old" not in oi["calls"] or "decoyname.Old" in oo["calls"]) else "0",
+                plusq="1" if (not changed or not (r.get("observed") or {}).get("plus_call_expected") or r["observed"]["plus_call_expected"] in oo["calls"]) else "0",
+                prior=len(r.get("before", [])), repeat=r.get("repeat", 0),
                 out=[dict(name=x["name"], path=ABS.get(x["path"], x["path"])) for x in oo["imports"]], err=(res["err"] or "")[:300])
     meta = [dict(id="replay", sc=sc, patch=r["patch"], src=r["src"], out=res["out"], err=res["err"], obs=dict(uses=oo["uses"], changed=changed))]
     v = validate(ctx, "replay", meta, [line], shards=1)
